@@ -413,7 +413,70 @@ fn bfs_limit(prop: Prop, ctx: &Ctx, rep: &mut Report, limit: u8, with_setlimit: 
     rep.note(&format!("{}_states_is_square_of_per_path_count", name), root * root == st.states);
 }
 
+/// Histories without state merging: setup, then one action repeated r times, then every pair of actions - compared with
+/// the model after every operation. The closed searches merge states by (public state + hook counters); a defect
+/// that lives in additional private state (a counter that only repetition moves) is invisible to that key, not to this.
+fn repeat_then_probe(prop: Prop, ctx: &Ctx, rep: &mut Report) {
+    let pname = if prop == Prop::C14 { "C14" } else { "C15" };
+    let acts = actions(0);
+    let setups: [&[Act]; 3] = [&[], &[Act::Register(1, 0, P1)], &[Act::Register(1, 0, P1), Act::Register(2, 1, P1), Act::Register(2, 0, P2)]];
+    let reps: [usize; 6] = [1, 2, 3, 17, 70, 300];
+    let limits: [u8; 3] = [0, 2, 255];
+    let k = acts.len() as u64;
+    let radices = [setups.len() as u64, limits.len() as u64, k, reps.len() as u64, k, k];
+    let n = product(&radices);
+    let fam = "repeat-then-probe";
+    ctx.family(
+        rep,
+        fam,
+        &format!("no state merging: setup {{nothing, one observer, three observers on two paths}} x limit {{0,2,255}} x one of the {} actions repeated {{1,2,3,17,70,300}} times x every ordered pair of actions; implementation compared with the model after every operation", k),
+        n,
+        true,
+        |i, rep| {
+            let d = decode(i, &radices);
+            let limit = limits[d[1] as usize];
+            let r = reps[d[3] as usize];
+            // long repetitions only in front of a thinned set of probes (every pair for r <= 3)
+            if r > 3 && (d[4] % 3 != 0 || d[5] % 2 != 0) {
+                rep.count("skipped-long-repetition-thinned-probes");
+                return;
+            }
+            let mut ops: Vec<Act> = setups[d[0] as usize].to_vec();
+            for _ in 0..r {
+                ops.push(acts[d[2] as usize].clone());
+            }
+            ops.push(acts[d[4] as usize].clone());
+            ops.push(acts[d[5] as usize].clone());
+            let mut s: Subject<Ep> = Subject::default();
+            s.set_unacknowledged_limit(limit);
+            let mut m = RefSubject::new(limit as u64);
+            for (idx, a) in ops.iter().enumerate() {
+                let before = snapshot(&s, &m);
+                let model_before = m.clone();
+                if let Err(pn) = apply_impl(&mut s, a) {
+                    rep.violation(viol(fam, i, format!("{}/panic@{}", pname, pn.site()), format!("operation {} {:?}: {}", idx, a, pn.message), Json::obj().set("limit", limit).set("operations", format!("{:?}", ops))));
+                    return;
+                }
+                apply_model(&mut m, a);
+                let after = snapshot(&s, &m);
+                if let Some(mm) = compare(a, &before, &after, &mut m, &model_before) {
+                    if (prop == Prop::C14) == mm.structural {
+                        rep.violation(viol(fam, i, format!("{}/{}", pname, mm.sig), format!("operation {}: {}", idx, mm.what), Json::obj().set("limit", limit).set("operations", format!("{:?}", ops))));
+                    }
+                    return;
+                }
+            }
+            rep.count("history-agrees-with-model");
+            rep.bucket(&(d[0], limit, r, d[2]));
+            if i == 0 || ctx.want_sample(i, n) {
+                rep.sample(Json::obj().set("family", fam).set("limit", limit).set("operations", format!("{:?}", ops)));
+            }
+        },
+    );
+}
+
 pub fn run_c14(ctx: &Ctx, rep: &mut Report) {
+    repeat_then_probe(Prop::C14, ctx, rep);
     for l in [0u8, 1, 2] {
         bfs_limit(Prop::C14, ctx, rep, l, false, 0);
     }
@@ -679,6 +742,7 @@ fn notification_sequences(ctx: &Ctx, rep: &mut Report) {
 }
 
 pub fn run_c15(ctx: &Ctx, rep: &mut Report) {
+    repeat_then_probe(Prop::C15, ctx, rep);
     for l in [0u8, 1, 2] {
         bfs_limit(Prop::C15, ctx, rep, l, false, 0);
     }
